@@ -313,12 +313,34 @@ def build(fn: T.Any, body: T.List[ast.stmt], name: str, seed: T.Optional[T.Dict[
             return None
         return callee, bound
 
+    class _InlineTrivial(ast.NodeTransformer):
+        """`self.h(a)` inside an expression, where h is `def h(self, p): return <expr>` (no other statement): the expression, with p := a."""
+
+        def __init__(self, depth: int, fields: T.Dict[str, ast.AST]):
+            self.depth = depth
+            self.fields = fields        # field values as of now: the inlined body reads them, its operands are already substituted
+
+        def visit_Call(self, n: ast.Call) -> ast.AST:
+            self.generic_visit(n)
+            hc = helper_call(n, False, self.depth)
+            if hc is None:
+                return n
+            callee, bound = hc
+            body = [b for b in callee.body if not (isinstance(b, ast.Expr) and isinstance(b.value, ast.Constant))]
+            if len(body) != 1 or not isinstance(body[0], ast.Return) or body[0].value is None or any(isinstance(x, (ast.Yield, ast.YieldFrom, ast.Await, ast.Lambda))
+                                                                                                    for x in ast.walk(body[0].value)):
+                return n
+            inner = _InlineTrivial(self.depth + 1, self.fields).visit(_Sub(dict(self.fields), {}).visit(copy.deepcopy(body[0].value)))
+            return _Sub(dict(bound), {}).visit(inner)
+
     def _mk(fr: _Frame, atom: T.Optional[Atom], val: bool, eff: T.Optional[Eff], raw: ast.AST) -> Item:
         return Item(atom, val, eff, raw, 1 if fr.shadow else 0)
 
     def proc(events: T.List[T.Any], i: int, st: _State, fr: _Frame, done: T.Callable[[_State, _Frame], None]) -> None:
         def sub(e: ast.AST) -> ast.AST:
             x = _Sub({**st.fields, **fr.locals}, fr.params).visit(copy.deepcopy(e))
+            if helpers is not None:
+                x = _InlineTrivial(fr.depth, st.fields).visit(x)
             return normal.visit(x) if normal is not None else x
 
         def setlocal(nm: str, v: ast.AST) -> None:
@@ -401,10 +423,12 @@ def build(fn: T.Any, body: T.List[ast.stmt], name: str, seed: T.Optional[T.Dict[
                 st.items.append(_mk(fr, None, True, Eff('exc', '', None, '', node), node))
             elif ev.kind == 'stmt':
                 s_ = node
-                if isinstance(s_, (ast.Assign, ast.AnnAssign)) and (isinstance(s_, ast.AnnAssign) or len(s_.targets) == 1) and s_.value is not None \
-                        and helper_call(s_.value, False, fr.depth) is not None:
-                    # x = self.h(...): splice the callee's paths, x receives what the path returns
-                    callee, bound = T.cast(T.Tuple[T.Any, T.Dict[str, ast.AST]], helper_call(s_.value, False, fr.depth))
+                hv = getattr(s_, 'value', None)
+                hgen = isinstance(hv, ast.YieldFrom)
+                if isinstance(s_, (ast.Assign, ast.AnnAssign)) and (isinstance(s_, ast.AnnAssign) or len(s_.targets) == 1) and hv is not None \
+                        and helper_call(hv.value if hgen else hv, hgen, fr.depth) is not None:
+                    # x = self.h(...) / x = yield from self.gen(...): splice the callee's paths, x receives what the path returns
+                    callee, bound = T.cast(T.Tuple[T.Any, T.Dict[str, ast.AST]], helper_call(hv.value if hgen else hv, hgen, fr.depth))
                     if id(callee) not in hpaths:
                         hpaths[id(callee)] = enumerate_paths(callee.body, unroll=1, handlers=any(isinstance(n, ast.Try) for n in ast.walk(callee)))
                     args = {pn: sub(x) for pn, x in bound.items()}
